@@ -13,6 +13,23 @@ package handlers
 //@ type baseHandler chaninv lines [line-wellformed] open: elem != nil && elem.Content != nil
 //@ type readCommand invariant [server] self.server != nil
 
+// ---- read limits (C13) ---------------------------------------------------------
+// catLimiter / tailLimiter are counting semaphores: a send takes a slot, a
+// receive gives one back. Per activation of read the ghost counter
+// `limiter.held` is the number of slots it holds: the reader may only run
+// while it is 1, a slot may only be given back while it is >= 1, and it must
+// be 0 again at return on every path (including cancellation while queued).
+//@ type ServerHandler semaphore catLimiter
+//@ type ServerHandler semaphore tailLimiter
+//@ func (*readCommand).read
+//@   requires [regex-usable] len(re.flags) >= 1 && implies(re.flags[0] == regex.Default || re.flags[0] == regex.Invert, re.re != nil)
+//@   chaninv lines [line-wellformed] elem != nil && elem.Content != nil
+//@   loop 1 invariant [lines-carry] carries(lines, "line-wellformed")
+//@   at-call FileReader.Start [holds-slot] limiter.held == 1
+//@   at-call FileReader.Start [right-limiter] implies(r.mode == omode.GrepClient || r.mode == omode.CatClient, limiter == r.server.catLimiter) && implies(r.mode != omode.GrepClient && r.mode != omode.CatClient, limiter == r.server.tailLimiter)
+//@ func (*readCommand).read$1
+//@   inline
+
 // The callback stored in handleCommandCb (handleUserCommand or
 // handleHealthCommand): args is what strings.Split returned, so it has at
 // least one element; argc is whatever the envelope code computed.
@@ -47,9 +64,13 @@ package handlers
 //@   requires [same-depth] uf_strcount(path, "/") >= uf_strcount(glob, "/")
 //@   assigns nothing
 //@ func (*readCommand).readFileIfPermissions
+//@   requires [regex-usable] len(re.flags) >= 1 && implies(re.flags[0] == regex.Default || re.flags[0] == regex.Invert, re.re != nil)
 //@   requires [same-depth] uf_strcount(path, "/") >= uf_strcount(glob, "/")
 //@   requires [wg] wg != nil
+//@ func (*readCommand).readGlob
+//@   requires [regex-usable] len(re.flags) >= 1 && implies(re.flags[0] == regex.Default || re.flags[0] == regex.Invert, re.re != nil)
 //@ func (*readCommand).readFiles
+//@   requires [regex-usable] len(re.flags) >= 1 && implies(re.flags[0] == regex.Default || re.flags[0] == regex.Invert, re.re != nil)
 //@   requires [same-depth] forall(i, 0, len(paths), uf_strcount(paths[i], "/") >= uf_strcount(glob, "/"))
 //@ func newReadCommand
 //@   requires [handler] server != nil
